@@ -1,6 +1,6 @@
 (* Proofs about the C29 model (model/ClientAddr.v). *)
 From Coq Require Import List ZArith Bool Lia.
-From Bfe Require Import lib.Val lib.ValProofs lib.Bytes model.HopByHop proofs.HopByHopProofs model.ClientAddr.
+From Bfe Require Import lib.Val lib.ValProofs lib.Bytes gen.HopHeaders model.HopByHop proofs.HopByHopProofs model.ClientAddr.
 Import ListNotations.
 Open Scope Z_scope.
 
@@ -52,6 +52,42 @@ Lemma values_append_elem_same k v m :
   values_of k (append_elem k v m) =
   [match hfind k m with Some prior => join_cs prior ++ comma_sp ++ v | None => v end].
 Proof. unfold append_elem. destruct (hfind k m); apply values_hset_same. Qed.
+
+(* ---- the address fields pass the hop-by-hop stage of the reverse proxy untouched (C26 model) ---- *)
+Lemma hfind_filter_key (p : bytes -> bool) k m :
+  p k = true -> hfind k (filter (fun e => p (fst e)) m) = hfind k m.
+Proof.
+  intros Hp. induction m as [|[k' vs] r IH]; simpl; [reflexivity|].
+  destruct (p k') eqn:E; simpl.
+  - destruct (bytes_eqb k k'); [reflexivity|exact IH].
+  - destruct (bytes_eqb k k') eqn:E2; [|exact IH]. apply bytes_eqb_eq in E2. subst. congruence.
+Qed.
+Lemma hfind_hop_step k h m : k <> h -> hfind k (hop_step m h) = hfind k m.
+Proof.
+  intros Hne. unfold hop_step. destruct (hfind h m); [|reflexivity].
+  match goal with |- context [if ?c then _ else _] => destruct c end; [reflexivity|].
+  apply hfind_hdel_other. exact Hne.
+Qed.
+Lemma hfind_hop_fold k l : forall m, ~ In k l -> hfind k (fold_left hop_step l m) = hfind k m.
+Proof.
+  induction l as [|h r IH]; simpl; intros m Hni; [reflexivity|].
+  rewrite IH by (intros H; apply Hni; right; exact H).
+  apply hfind_hop_step. intros E. apply Hni. left. symmetry. exact E.
+Qed.
+Lemma hfind_to_backend k m :
+  mem_bytes k hop_list = false -> mem_bytes k write_exclude = false -> hfind k (to_backend m) = hfind k m.
+Proof.
+  intros Hh He. unfold to_backend, written.
+  rewrite (hfind_filter_key (fun x => negb (mem_bytes x write_exclude))) by (rewrite He; reflexivity).
+  apply hfind_hop_fold. intros Hin. apply mem_bytes_In in Hin. congruence.
+Qed.
+Definition addr_keys : list bytes := [s_xff; s_xrip; s_xrport; s_xfp; s_xfh; s_xbfeip].
+Theorem upstream_survives : forall k m, In k addr_keys -> values_of k (to_backend m) = values_of k m.
+Proof.
+  intros k m Hk. unfold values_of. rewrite hfind_to_backend; [reflexivity| |].
+  - destruct Hk as [<-|[<-|[<-|[<-|[<-|[<-|[]]]]]]]; vm_compute; reflexivity.
+  - destruct Hk as [<-|[<-|[<-|[<-|[<-|[<-|[]]]]]]]; vm_compute; reflexivity.
+Qed.
 
 (* ---- comma lists ---- *)
 Lemma split_byte_app c a b : split_byte c (a ++ c :: b) = split_byte c a ++ split_byte c b.
@@ -124,40 +160,48 @@ Qed.
 Lemma keys_distinct :
   s_xff <> s_xfp /\ s_xff <> s_xrip /\ s_xff <> s_xrport /\ s_xrip <> s_xrport /\ s_xrip <> s_xfp /\ s_xrport <> s_xfp.
 Proof. repeat split; discriminate. Qed.
+Lemma keys_distinct2 :
+  s_xff <> s_xbfeip /\ s_xrip <> s_xbfeip /\ s_xrport <> s_xbfeip /\ s_xff <> s_xfh /\ s_xfp <> s_xfh.
+Proof. repeat split; discriminate. Qed.
 
 Section WithParse.
 Variable parse : bytes -> option (ip16 * bytes).
+Variables host local : bytes.
 
 (* X-Forwarded-For upstream is always one field ending with the peer's ip *)
 Theorem xff_ends_with_peer : forall table peer pairs,
   ip_text_ok (a_text peer) = true ->
-  exists v, values_of s_xff (r_headers (process parse table peer pairs)) = [v] /\ last_elem v = a_text peer.
+  exists v, values_of s_xff (r_headers (process parse host local table peer pairs)) = [v] /\ last_elem v = a_text peer.
 Proof.
   intros table peer pairs Hok. destruct keys_distinct as [D1 [D2 [D3 [D4 [D5 D6]]]]].
+  destruct keys_distinct2 as [E1 [E2 [E3 [E4 E5]]]].
   unfold process. simpl. set (m := hdel s_host (parse_headers pairs)).
   set (ca := set_client_addr parse (trusted table (a_ip peer)) peer m).
-  assert (Hx : forall ca', values_of s_xff (set_default_header peer ca' m) =
-               [match hfind s_xff m with Some prior => join_cs prior ++ comma_sp ++ a_text peer | None => a_text peer end]).
-  { intros ca'. unfold set_default_header. destruct ca' as [a|].
+  set (m0 := match host with [] => m | _ => append_elem s_xfh host m end).
+  assert (Hx : forall ca', values_of s_xff (set_default_header host local peer ca' m) =
+               [match hfind s_xff m0 with Some prior => join_cs prior ++ comma_sp ++ a_text peer | None => a_text peer end]).
+  { intros ca'. unfold set_default_header. cbv zeta. fold m0. rewrite values_hset_other by exact E1. destruct ca' as [a|].
     - rewrite values_hset_other by exact D3. rewrite values_hset_other by exact D2.
       rewrite values_append_elem_other by exact D1. apply values_append_elem_same.
     - rewrite values_append_elem_other by exact D1. apply values_append_elem_same. }
   rewrite Hx. eexists. split; [reflexivity|].
-  destruct (hfind s_xff m); [apply last_elem_appended|apply last_elem_plain]; exact Hok.
+  destruct (hfind s_xff m0); [apply last_elem_appended|apply last_elem_plain]; exact Hok.
 Qed.
 
 Theorem untrusted_uses_peer : forall table peer pairs,
   trusted table (a_ip peer) = false ->
-  let r := process parse table peer pairs in
+  let r := process parse host local table peer pairs in
   r_trusted r = false /\ r_caddr r = Some peer /\
   values_of s_xrip (r_headers r) = [a_text peer] /\
   values_of s_xrport (r_headers r) = [dec_of_Z (a_port peer)].
 Proof.
   intros table peer pairs Ht. destruct keys_distinct as [D1 [D2 [D3 [D4 [D5 D6]]]]].
-  unfold process. rewrite Ht. simpl. split; [reflexivity|]. split; [reflexivity|].
-  split.
-  - rewrite values_hset_other by exact D4. apply values_hset_same.
-  - apply values_hset_same.
+  destruct keys_distinct2 as [E1 [E2 [E3 [E4 E5]]]].
+  unfold process. rewrite Ht. cbv zeta. cbn [r_trusted r_caddr r_headers]. unfold set_client_addr. cbn [negb].
+  split; [reflexivity|]. split; [reflexivity|].
+  unfold set_default_header. cbv zeta. split.
+  - rewrite values_hset_other by exact E2. rewrite values_hset_other by exact D4. apply values_hset_same.
+  - rewrite values_hset_other by exact E3. apply values_hset_same.
 Qed.
 
 (* what setClientAddr takes from the headers of a trusted peer *)
@@ -171,13 +215,14 @@ Theorem trusted_honours : forall table peer pairs cip cport ip text,
   trusted table (a_ip peer) = true ->
   header_candidate (hdel s_host (parse_headers pairs)) = (cip, cport) ->
   cip <> [] -> parse cip = Some (ip, text) ->
-  let r := process parse table peer pairs in
+  let r := process parse host local table peer pairs in
   let port := match atoi cport with Some p => p | None => 0 end in
   r_trusted r = true /\ r_caddr r = Some (mk_addr ip text port) /\
   values_of s_xrip (r_headers r) = [text] /\ values_of s_xrport (r_headers r) = [dec_of_Z port].
 Proof.
   intros table peer pairs cip cport ip text Ht Hc Hne Hp. destruct keys_distinct as [D1 [D2 [D3 [D4 [D5 D6]]]]].
-  unfold process. rewrite Ht. simpl. split; [reflexivity|].
+  destruct keys_distinct2 as [F1 [F2 [F3 [F4 F5]]]].
+  unfold process. rewrite Ht. cbv zeta. cbn [r_trusted r_caddr r_headers]. split; [reflexivity|].
   set (m := hdel s_host (parse_headers pairs)) in *.
   assert (Hca : set_client_addr parse true peer m =
                 Some (mk_addr ip text match atoi cport with Some p => p | None => 0 end)).
@@ -186,16 +231,21 @@ Proof.
     - inversion Hc; subst. destruct (first_split s_xff m) as [|y ys] eqn:E2; [contradiction|].
       rewrite Hp. reflexivity.
     - inversion Hc; subst. rewrite Hp. reflexivity. }
-  rewrite Hca. split; [reflexivity|]. simpl. split.
-  - rewrite values_hset_other by exact D4. apply values_hset_same.
-  - apply values_hset_same.
+  rewrite Hca. split; [reflexivity|]. unfold set_default_header. cbv zeta. split.
+  - rewrite values_hset_other by exact F2. rewrite values_hset_other by exact D4. apply values_hset_same.
+  - rewrite values_hset_other by exact F3. apply values_hset_same.
 Qed.
+
+(* X-Bfe-Ip upstream is the local address of the connection, whatever the client sent *)
+Theorem bfe_ip_overwritten : forall table peer pairs,
+  values_of s_xbfeip (r_headers (process parse host local table peer pairs)) = [local].
+Proof. intros. unfold process. simpl. unfold set_default_header. cbv zeta. apply values_hset_same. Qed.
 
 (* a trusted peer without usable address headers leaves ClientAddr unset (nil) *)
 Theorem trusted_without_headers_nil : forall table peer pairs,
   trusted table (a_ip peer) = true ->
   fst (header_candidate (hdel s_host (parse_headers pairs))) = [] ->
-  r_caddr (process parse table peer pairs) = None.
+  r_caddr (process parse host local table peer pairs) = None.
 Proof.
   intros table peer pairs Ht Hc. unfold process. rewrite Ht. simpl.
   unfold set_client_addr. simpl. unfold header_candidate in Hc.
@@ -220,7 +270,7 @@ Definition ex_parse (t : bytes) : option (ip16 * bytes) :=
 
 Lemma untrusted_example :
   trusted ex_table (a_ip ex_peer) = false /\ ip_text_ok (a_text ex_peer) = true /\
-  let r := process ex_parse ex_table ex_peer ex_hdrs in
+  let r := process ex_parse [] [] ex_table ex_peer ex_hdrs in
   r_caddr r = Some ex_peer /\
   values_of s_xff (r_headers r) = [[54;46;54;46;54;46;54;44;32;55;46;55;46;55;46;55;44;32] ++ a_text ex_peer].
 Proof. vm_compute. repeat split; reflexivity. Qed.
@@ -228,6 +278,6 @@ Lemma trusted_example :
   trusted ex_table_t (a_ip ex_peer) = true /\
   header_candidate (hdel s_host (parse_headers ex_hdrs)) = ([49;46;50;46;51;46;52], [56;48]) /\
   ex_parse [49;46;50;46;51;46;52] = Some ([0;0;0;0;0;0;0;0;0;0;255;255;1;2;3;4], [49;46;50;46;51;46;52]) /\
-  r_caddr (process ex_parse ex_table_t ex_peer ex_hdrs) =
+  r_caddr (process ex_parse [] [] ex_table_t ex_peer ex_hdrs) =
     Some (mk_addr [0;0;0;0;0;0;0;0;0;0;255;255;1;2;3;4] [49;46;50;46;51;46;52] 80).
 Proof. vm_compute. repeat split; reflexivity. Qed.
